@@ -85,7 +85,11 @@ func (self ValueList) Fields() (map[string]*Value, *VmInterrupt) {
 		}),
 		"concat": NewValueBuiltinFunction(func(executor Executor, cancelCtx *context.Context, span errors.Span, args ...Value) (*Value, *VmInterrupt) {
 			other := args[0].(ValueList)
-			*self.Values = append(*self.Values, *other.Values...)
+			// every appended element gets a cell of its own: a later `other[i] = v` must not change this list
+			for _, element := range *other.Values {
+				elementCell := *element
+				*self.Values = append(*self.Values, &elementCell)
+			}
 			return NewValueNull(), nil
 		}),
 		"join": NewValueBuiltinFunction(func(executor Executor, cancelCtx *context.Context, span errors.Span, args ...Value) (*Value, *VmInterrupt) {
